@@ -103,7 +103,10 @@ def main():
     MENU.update({
         "facB": lambda: (fac("t_amplitude"), "ijab"),
         "facA": lambda: (fac(["t_amplitude", "re_residual"]), "ijab"),
-        "facC": lambda: (fac(["mp_density", "t_amplitude"]), "ijab"),
+        # (with 'mp_density' first or alone the library's own guard raises
+        # RuntimeError "Invalid contracted itmd indices" while it prepares
+        # the density intermediates - in every history, also a fresh one)
+        "facC": lambda: (fac(["t_amplitude", "mp_density"]), "ijab"),
         "facD": lambda: (fac("re_residual"), "ijab"),
     })
     MENU.update({
